@@ -25,7 +25,8 @@
 use ant_evm::U256;
 use ant_networking::verif::record_store as rs;
 use ant_networking::verif::LocalSwarmCmd;
-use ant_networking::{NetworkEvent, NodeRecordStore};
+use ant_networking::verif::{driver as dhook, event as hook};
+use ant_networking::{Network, NetworkBuilder, NetworkError, NetworkEvent, NodeRecordStore, SwarmDriver};
 use ant_protocol::storage::RecordType;
 use ant_protocol::NetworkAddress;
 use common::{Out, Rng};
@@ -49,12 +50,28 @@ fn sha(parts: &[&[u8]]) -> [u8; 32] {
     h.finalize().into()
 }
 
-/// key id -> record key bytes; keys of one group of three share their first 20 bytes
+/// key id -> record key bytes. Most keys are 32 bytes; some ids map to keys of 2, 8, 31, 33, 34 (PeerId-like) and
+/// 64 bytes (record keys are arbitrary byte strings). Keys of one group of three share their first 20 bytes.
+fn key_len(k: u64) -> usize {
+    match k % 10 {
+        0 => 8,
+        1 => 34,
+        2 => 31,
+        3 => 33,
+        4 => 64,
+        5 => 2,
+        _ => 32,
+    }
+}
 fn key_bytes(k: u64) -> Vec<u8> {
     let g = sha(&[b"grp", &(k / 3).to_le_bytes()]);
     let s = sha(&[b"key", &k.to_le_bytes()]);
-    let mut v = g[..20].to_vec();
-    v.extend_from_slice(&s[..12]);
+    let s2 = sha(&[b"key2", &k.to_le_bytes()]);
+    let n = key_len(k);
+    let mut v = if n >= 32 { g[..20].to_vec() } else { vec![] };
+    v.extend_from_slice(&s);
+    v.extend_from_slice(&s2);
+    v.truncate(n);
     v
 }
 
@@ -103,6 +120,22 @@ fn value_bytes(v: u64) -> Vec<u8> {
     out
 }
 
+/// the record type `PutLocalRecord`'s handler derives from the header of value #v (None: it refuses the record)
+fn handler_rt(v: u64) -> Option<String> {
+    if val_len(v) < 3 {
+        return None;
+    }
+    match v % 3 {
+        0 => Some("c".into()),
+        1 => match [2u8, 3, 5, 0, 4, 6, 7][((v / 3) % 7) as usize] {
+            2 | 3 => Some(format!("n{v}")),
+            5 => Some("s".into()),
+            _ => None,
+        },
+        _ => None,
+    }
+}
+
 fn file_len(v: u64) -> usize {
     value_bytes(v).len() + if rs::ENCRYPT_RECORDS { 16 } else { 0 }
 }
@@ -126,6 +159,9 @@ impl TKind {
 struct Lane {
     rt: tokio::runtime::Runtime,
     tasks: VecDeque<(u64, TKind)>,
+    /// cmd backend: the flush task `build_node` spawned sits in the driver's own runtime, which the harness never
+    /// runs (it also holds libp2p's tasks); it stays pending for good
+    frozen: bool,
 }
 
 #[derive(Clone, Debug, PartialEq)]
@@ -143,7 +179,18 @@ struct World {
     max: usize,
     cache: usize,
     maxval: usize,
-    store: Option<NodeRecordStore>,
+    /// bare backend: the store itself; cmd backend: a real node `SwarmDriver` (never run) whose command
+    /// handlers are driven by the harness
+    bare: Option<Box<NodeRecordStore>>,
+    driver: Option<Box<SwarmDriver>>,
+    network: Option<Network>,
+    events: Option<mpsc::Receiver<NetworkEvent>>,
+    base_rt: Option<tokio::runtime::Runtime>,
+    store_ptr: *mut NodeRecordStore,
+    use_cmd: bool,
+    peer_seed: u64,
+    /// `RemoveFailedLocalRecord` handled in a row (the handler terminates the node after 5)
+    removes_in_a_row: u32,
     cmd_tx: mpsc::Sender<LocalSwarmCmd>,
     cmd_rx: mpsc::Receiver<LocalSwarmCmd>,
     ev_tx: mpsc::Sender<NetworkEvent>,
@@ -183,6 +230,13 @@ fn scratch_dir(prefix: &str) -> tempfile::TempDir {
     tempfile::Builder::new().prefix(prefix).tempdir_in(base).expect("tempdir")
 }
 
+impl Drop for World {
+    fn drop(&mut self) {
+        self.lanes.clear();
+        self.close();
+    }
+}
+
 fn new_lane_rt() -> tokio::runtime::Runtime {
     tokio::runtime::Builder::new_current_thread()
         .event_interval(1)
@@ -198,7 +252,7 @@ fn big_to_u256(b: &BigUint) -> U256 {
 }
 
 impl World {
-    fn new(max: usize, cache: usize, peer_seed: u64, maxval: usize) -> World {
+    fn new(max: usize, cache: usize, peer_seed: u64, maxval: usize, use_cmd: bool) -> World {
         let root = scratch_dir("store-");
         let storage = root.path().join("record_store");
         std::fs::create_dir_all(&storage).expect("mkdir");
@@ -219,7 +273,15 @@ impl World {
             max,
             cache,
             maxval,
-            store: None,
+            bare: None,
+            driver: None,
+            network: None,
+            events: None,
+            base_rt: None,
+            store_ptr: std::ptr::null_mut(),
+            use_cmd,
+            peer_seed,
+            removes_in_a_row: 0,
             cmd_tx,
             cmd_rx,
             ev_tx,
@@ -260,7 +322,49 @@ impl World {
     }
 
     /// `with_config` on the directory; its flush task becomes a pending task
+    fn st(&self) -> &NodeRecordStore {
+        assert!(!self.store_ptr.is_null(), "store");
+        // SAFETY: points into `self.bare` / `self.driver` (boxed, alive until `close`), no other reference is live
+        unsafe { &*self.store_ptr }
+    }
+    fn st_mut(&mut self) -> &mut NodeRecordStore {
+        assert!(!self.store_ptr.is_null(), "store");
+        unsafe { &mut *self.store_ptr }
+    }
+
+    fn keypair(&self) -> Keypair {
+        let mut sk = sha(&[b"peer", &self.peer_seed.to_le_bytes()]);
+        Keypair::ed25519_from_bytes(&mut sk).expect("keypair")
+    }
+
+    /// `with_config` on the directory (bare backend) or `NetworkBuilder::build_node` on it (cmd backend);
+    /// the flush task of `with_config` becomes a pending task
     fn open(&mut self) {
+        if self.use_cmd {
+            let base = tokio::runtime::Builder::new_current_thread().enable_all().build().expect("runtime");
+            let (network, events, driver) = {
+                let _g = base.enter();
+                let mut b = NetworkBuilder::new(self.keypair(), true);
+                b.listen_addr("127.0.0.1:0".parse().expect("addr"));
+                b.build_node(self.root.path().to_path_buf()).expect("build_node")
+            };
+            let mut driver = Box::new(driver);
+            let (max, cache) = (self.max, self.cache);
+            let store = rs::node_store_mut(&mut driver).expect("node store");
+            rs::set_capacities(store, max, cache);
+            self.payments = rs::received_payment_count(store) as u64;
+            self.store_ptr = store as *mut NodeRecordStore;
+            self.driver = Some(driver);
+            self.network = Some(network);
+            self.events = Some(events);
+            self.base_rt = Some(base);
+            let n = self.payments;
+            let mut tasks = VecDeque::new();
+            tasks.push_back((self.next_id, TKind::Flush { n }));
+            self.next_id += 1;
+            self.lanes.push(Lane { rt: new_lane_rt(), tasks, frozen: true });
+            return;
+        }
         let rt = new_lane_rt();
         let cfg = self.config(self.root.path());
         let store = {
@@ -268,9 +372,36 @@ impl World {
             rs::with_config(self.peer, cfg, self.ev_tx.clone(), self.cmd_tx.clone())
         };
         self.payments = rs::received_payment_count(&store) as u64;
-        self.store = Some(store);
+        let mut store = Box::new(store);
+        self.store_ptr = &mut *store as *mut NodeRecordStore;
+        self.bare = Some(store);
         let n = self.payments;
         self.push_lane(rt, vec![TKind::Flush { n }]);
+    }
+
+    /// the node stops
+    fn close(&mut self) {
+        self.store_ptr = std::ptr::null_mut();
+        self.bare = None;
+        if let Some(base) = self.base_rt.take() {
+            {
+                let _g = base.enter();
+                self.driver = None;
+                self.network = None;
+                self.events = None;
+            }
+            base.shutdown_background();
+        }
+    }
+
+    /// hand a command to the real `SwarmDriver::handle_local_cmd` while `rt` is the ambient runtime
+    fn handle(&mut self, rt: &tokio::runtime::Runtime, cmd: LocalSwarmCmd) -> Result<(), NetworkError> {
+        let _g = rt.enter();
+        let r = hook::handle_local_cmd(self.driver.as_mut().expect("driver"), cmd);
+        if let Some(ev) = self.events.as_mut() {
+            while ev.try_recv().is_ok() {}
+        }
+        r
     }
 
     /// register the tasks a call spawned; `kinds` is what the harness infers, padded/truncated to the real count
@@ -284,7 +415,7 @@ impl World {
             self.next_id += 1;
         }
         if alive > 0 {
-            self.lanes.push(Lane { rt, tasks });
+            self.lanes.push(Lane { rt, tasks, frozen: false });
         }
         consistent
     }
@@ -333,7 +464,7 @@ impl World {
     }
 
     fn listed(&self) -> BTreeMap<u64, String> {
-        let store = self.store.as_ref().expect("store");
+        let store = self.st();
         let mut m = BTreeMap::new();
         for (key, (_addr, rt)) in rs::record_addresses_ref(store) {
             if let Some(k) = self.key_ids.get(key.as_ref()) {
@@ -346,7 +477,7 @@ impl World {
     }
 
     fn get_str(&self, k: u64) -> String {
-        let store = self.store.as_ref().expect("store");
+        let store = self.st();
         let key = &self.keys[&k].0;
         match rs::get(store, key) {
             None => "none".into(),
@@ -405,6 +536,7 @@ impl World {
     fn runnable(&self) -> Vec<u64> {
         self.lanes
             .iter()
+            .filter(|l| !l.frozen)
             .filter_map(|l| l.tasks.front().cloned())
             .filter(|(id, kind)| self.legal_run(*id, kind))
             .map(|(id, _)| id)
@@ -452,6 +584,12 @@ impl World {
         while let Ok(c) = self.cmd_rx.try_recv() {
             cmds.push(c);
         }
+        if let Some(d) = self.driver.as_mut() {
+            // the driver's own `LocalSwarmCmd` receiver: what `SwarmDriver::run` would take next
+            while let Some(c) = dhook::try_recv_local_cmd(d) {
+                cmds.push(c);
+            }
+        }
         if self.lanes[li].tasks.is_empty() {
             self.lanes.remove(li);
         }
@@ -471,7 +609,7 @@ impl World {
         if self.keys.len() > 64 {
             return;
         }
-        let store = self.store.as_ref().expect("store");
+        let store = self.st();
         let listed = self.listed();
         let mut want: Vec<(BigUint, u64)> = listed.keys().filter(|k| self.keys.contains_key(k)).map(|k| (self.keys[k].1.clone(), *k)).collect();
         want.sort();
@@ -482,7 +620,7 @@ impl World {
             let w: Vec<&String> = want_s.iter().map(|x| &x.1).collect();
             self.fail("views-agree", format!("records_by_distance holds keys {g:?}, the listed keys by true distance are {w:?}"));
         }
-        let far = rs::farthest_record(self.store.as_ref().expect("store")).map(|(k, d)| (self.key_id(&k), format!("{d:?}")));
+        let far = rs::farthest_record(self.st()).map(|(k, d)| (self.key_id(&k), format!("{d:?}")));
         let want_far = self.own_farthest(&listed).map(|k| (k.to_string(), format!("Distance({})", self.keys[&k].1)));
         if far != want_far {
             self.fail("views-agree", format!("farthest_record is {far:?}, the farthest listed key is {want_far:?}"));
@@ -494,7 +632,7 @@ impl World {
 
     /// C01: with nothing in flight, every untainted key reads back its last accepted put / is absent after removal
     fn check_settled(&mut self) {
-        if self.crashed || !self.lanes.is_empty() || !self.notes.is_empty() || self.keys.len() > 64 {
+        if self.crashed || self.lanes.iter().any(|l| !l.frozen) || !self.notes.is_empty() || self.keys.len() > 64 {
             return;
         }
         let listed = self.listed();
@@ -541,8 +679,16 @@ impl World {
                 self.keys.insert(k, (key, dist));
                 "ok".into()
             }
-            ["put", k, v, rt] => {
+            ["put", k, v, _] | ["cput", k, v] => {
+                // `put`: put_verified on the bare store; `cput`: `LocalSwarmCmd::PutLocalRecord` through the real handler,
+                // which derives the record type from the record header
+                let via_cmd = ws[0] == "cput";
+                if via_cmd != self.use_cmd {
+                    return "bad-op".into();
+                }
                 let (Some(k), Ok(v)) = (knows(self, k), v.parse::<u64>()) else { return "bad-op".into() };
+                let rt_owned: String = if via_cmd { handler_rt(v).unwrap_or_else(|| "c".into()) } else { ws[3].to_string() };
+                let rt: &str = &rt_owned;
                 let Some(rtype) = self.parse_rt(rt) else { return "bad-op".into() };
                 let bytes = self.learn_value(v);
                 let key = self.keys[&k].0.clone();
@@ -553,9 +699,17 @@ impl World {
                 self.puts.entry(k).or_default().push(v);
                 let rec = Record { key: key.clone(), value: bytes, publisher: None, expires: None };
                 let rt_lane = new_lane_rt();
-                let res = {
+                let res = if via_cmd {
+                    let _ = rtype;
+                    match self.handle(&rt_lane, LocalSwarmCmd::PutLocalRecord { record: rec }) {
+                        Ok(()) => Ok(()),
+                        Err(NetworkError::KademliaStoreError(e)) => Err(e),
+                        Err(NetworkError::InCorrectRecordHeader) => return "bad-header".into(),
+                        Err(e) => return format!("err:{e:?}"),
+                    }
+                } else {
                     let _g = rt_lane.enter();
-                    rs::put_verified(self.store.as_mut().expect("store"), rec, rtype)
+                    rs::put_verified(self.st_mut(), rec, rtype)
                 };
                 let after = self.listed();
                 let evicted: Vec<u64> = before.keys().filter(|x| !after.contains_key(x)).copied().collect();
@@ -620,6 +774,9 @@ impl World {
             }
             ["remove", k] => {
                 let Some(k) = knows(self, k) else { return "bad-op".into() };
+                if self.use_cmd && self.removes_in_a_row >= 5 {
+                    return "bad-op".into();
+                }
                 let key = self.keys[&k].0.clone();
                 if self.inflight(k) {
                     self.taint.insert(k);
@@ -627,9 +784,16 @@ impl World {
                 }
                 self.last_event.insert(k, Ev::Removed);
                 let rt_lane = new_lane_rt();
-                {
+                if self.use_cmd {
+                    // the only handler that removes one record: `RemoveFailedLocalRecord` (it also counts disk errors
+                    // and asks the node to terminate after five in a row; the harness stays below that)
+                    self.removes_in_a_row += 1;
+                    if let Err(e) = self.handle(&rt_lane, LocalSwarmCmd::RemoveFailedLocalRecord { key: key.clone() }) {
+                        return format!("err:{e:?}");
+                    }
+                } else {
                     let _g = rt_lane.enter();
-                    rs::remove(self.store.as_mut().expect("store"), &key);
+                    rs::remove(self.st_mut(), &key);
                 }
                 if !self.push_lane(rt_lane, vec![TKind::Delete { k }]) {
                     return "ok lane-mismatch".into();
@@ -643,7 +807,7 @@ impl World {
                 if !self.legal_run(id, &kind) {
                     return "illegal-choice".into();
                 }
-                if pos != 0 {
+                if pos != 0 || self.lanes[li].frozen {
                     return "unsupported-schedule".into();
                 }
                 let cmds = self.step_lane(li);
@@ -675,9 +839,22 @@ impl World {
                 let (_, _, cmd) = self.notes.remove(pos);
                 let rt_lane = new_lane_rt();
                 let mut kinds = vec![];
-                {
+                if self.use_cmd {
+                    // the REAL handler of the notification
+                    match &cmd {
+                        LocalSwarmCmd::AddLocalRecordAsStored { .. } => self.removes_in_a_row = 0,
+                        LocalSwarmCmd::RemoveFailedLocalRecord { .. } => {
+                            self.removes_in_a_row += 1;
+                            kinds.push(TKind::Delete { k });
+                        }
+                        _ => {}
+                    }
+                    if let Err(e) = self.handle(&rt_lane, cmd) {
+                        return format!("err:{e:?}");
+                    }
+                } else {
                     let _g = rt_lane.enter();
-                    let store = self.store.as_mut().expect("store");
+                    let store = self.st_mut();
                     // what `SwarmDriver::handle_local_cmd` does with these two commands
                     match cmd {
                         LocalSwarmCmd::AddLocalRecordAsStored { key, record_type } => rs::mark_as_stored(store, key, record_type),
@@ -698,16 +875,20 @@ impl World {
                 if b.bits() > 256 {
                     return "bad-op".into();
                 }
-                rs::set_responsible_distance_range(self.store.as_mut().expect("store"), big_to_u256(&b));
+                rs::set_responsible_distance_range(self.st_mut(), big_to_u256(&b));
                 self.range = Some(b);
                 "ok".into()
             }
             ["cleanup"] => {
                 let before = self.listed();
                 let rt_lane = new_lane_rt();
-                {
+                if self.use_cmd {
+                    if let Err(e) = self.handle(&rt_lane, LocalSwarmCmd::TriggerIrrelevantRecordCleanup) {
+                        return format!("err:{e:?}");
+                    }
+                } else {
                     let _g = rt_lane.enter();
-                    rs::cleanup_irrelevant_records(self.store.as_mut().expect("store"));
+                    rs::cleanup_irrelevant_records(self.st_mut());
                 }
                 let after = self.listed();
                 let mut removed: Vec<u64> = before.keys().filter(|x| !after.contains_key(x)).copied().collect();
@@ -739,9 +920,13 @@ impl World {
             }
             ["payment"] => {
                 let rt_lane = new_lane_rt();
-                {
+                if self.use_cmd {
+                    if let Err(e) = self.handle(&rt_lane, LocalSwarmCmd::PaymentReceived) {
+                        return format!("err:{e:?}");
+                    }
+                } else {
                     let _g = rt_lane.enter();
-                    rs::payment_received(self.store.as_mut().expect("store"));
+                    rs::payment_received(self.st_mut());
                 }
                 self.payments += 1;
                 let n = self.payments;
@@ -758,7 +943,7 @@ impl World {
                 let rt_lane = new_lane_rt();
                 let res = {
                     let _g = rt_lane.enter();
-                    libp2p::kad::store::RecordStore::put(self.store.as_mut().expect("store"), rec)
+                    libp2p::kad::store::RecordStore::put(self.st_mut(), rec)
                 };
                 drop(rt_lane);
                 match res {
@@ -774,7 +959,25 @@ impl World {
             ["crash", tears @ ..] => self.crash(tears),
             ["get", k] => {
                 let Some(k) = knows(self, k) else { return "bad-op".into() };
-                let out = self.get_str(k);
+                let mut out = self.get_str(k);
+                if self.use_cmd {
+                    // through `LocalSwarmCmd::GetLocalRecord`; must agree with the store's own answer
+                    let (tx, mut rx) = tokio::sync::oneshot::channel();
+                    let rt_lane = new_lane_rt();
+                    let key = self.keys[&k].0.clone();
+                    let _ = self.handle(&rt_lane, LocalSwarmCmd::GetLocalRecord { key, sender: tx });
+                    let via = match rx.try_recv() {
+                        Ok(None) => "none".to_string(),
+                        Ok(Some(r)) => match self.vals.get(&r.value) {
+                            Some(v) => format!("some {v}"),
+                            None => "some ?".to_string(),
+                        },
+                        Err(_) => "no-answer".to_string(),
+                    };
+                    if via != out {
+                        out = format!("{via} !direct={out}");
+                    }
+                }
                 // C01 soundness: only bytes handed over as a validated record for this key
                 let ok = match out.strip_prefix("some ").and_then(|v| v.parse::<u64>().ok()) {
                     Some(v) => self.puts.get(&k).map(|p| p.contains(&v)).unwrap_or(false),
@@ -787,13 +990,35 @@ impl World {
             }
             ["contains", k] => {
                 let Some(k) = knows(self, k) else { return "bad-op".into() };
-                rs::contains(self.store.as_ref().expect("store"), &self.keys[&k].0).to_string()
+                let direct = rs::contains(self.st(), &self.keys[&k].0).to_string();
+                if self.use_cmd {
+                    let (tx, mut rx) = tokio::sync::oneshot::channel();
+                    let rt_lane = new_lane_rt();
+                    let key = self.keys[&k].0.clone();
+                    let _ = self.handle(&rt_lane, LocalSwarmCmd::RecordStoreHasKey { key, sender: tx });
+                    return match rx.try_recv() {
+                        Ok(b) if b.to_string() == direct => direct,
+                        Ok(b) => format!("{b} !direct={direct}"),
+                        Err(_) => "no-answer".into(),
+                    };
+                }
+                direct
             }
             ["addrs"] => {
-                let store = self.store.as_ref().expect("store");
+                let addresses = if self.use_cmd {
+                    let (tx, mut rx) = tokio::sync::oneshot::channel();
+                    let rt_lane = new_lane_rt();
+                    let _ = self.handle(&rt_lane, LocalSwarmCmd::GetAllLocalRecordAddresses { sender: tx });
+                    match rx.try_recv() {
+                        Ok(m) => m,
+                        Err(_) => return "no-answer".into(),
+                    }
+                } else {
+                    rs::record_addresses(self.st())
+                };
                 let mut v: Vec<(u64, String)> = vec![];
                 let mut odd = vec![];
-                for (addr, rt) in rs::record_addresses(store) {
+                for (addr, rt) in addresses {
                     let id = self.keys.iter().find(|(_, (key, _))| NetworkAddress::from_record_key(key) == addr).map(|(k, _)| *k);
                     match id {
                         Some(k) => v.push((k, self.rt_str(&rt))),
@@ -814,7 +1039,7 @@ impl World {
                 if v.is_empty() { "-".into() } else { v.join(" ") }
             }
             ["dist"] => {
-                let store = self.store.as_ref().expect("store");
+                let store = self.st();
                 let v: Vec<String> = rs::records_by_distance(store)
                     .into_iter()
                     .map(|(d, key)| {
@@ -826,7 +1051,7 @@ impl World {
                 if v.is_empty() { "-".into() } else { v.join(" ") }
             }
             ["far"] => {
-                let store = self.store.as_ref().expect("store");
+                let store = self.st();
                 match rs::farthest_record(store) {
                     None => "none".into(),
                     Some((key, d)) => {
@@ -837,7 +1062,7 @@ impl World {
                 }
             }
             ["cache"] => {
-                let store = self.store.as_ref().expect("store");
+                let store = self.st();
                 let mut es = rs::cache_entries(store);
                 es.sort_by_key(|e| e.2);
                 let v: Vec<String> = es
@@ -853,7 +1078,7 @@ impl World {
             }
             ["metrics", k] => {
                 let Some(k) = knows(self, k) else { return "bad-op".into() };
-                let store = self.store.as_ref().expect("store");
+                let store = self.st();
                 let (m, stored) = rs::quoting_metrics(store, &self.keys[&k].0, Some(7));
                 let range = m.network_density.map(|b| BigUint::from_bytes_be(&b).to_string()).unwrap_or("none".into());
                 let extra = if m.network_size != Some(7) { " !size" } else { "" };
@@ -930,7 +1155,7 @@ impl World {
         // the node stops: nothing pending survives
         self.lanes.clear();
         self.notes.clear();
-        self.store = None;
+        self.close();
         while self.cmd_rx.try_recv().is_ok() {}
         self.crashed = true;
         self.clean = false;
@@ -1062,6 +1287,8 @@ enum Mode {
     Sched,
     Crash,
     Cap,
+    /// the store inside a real node `SwarmDriver`, commands through the real `handle_local_cmd`
+    Cmd,
 }
 
 struct Gen {
@@ -1147,12 +1374,22 @@ fn gen_op(rng: &mut Rng, w: &World, g: &Gen) -> String {
         Mode::Sched => (28, 8, 24, 18),
         Mode::Crash => (34, 8, 22, 14),
         Mode::Cap => (36, 5, 20, 18),
+        Mode::Cmd => (32, 6, 24, 20),
     };
     if roll < p_put {
-        let v = pick_value(rng, w, k);
+        let mut v = pick_value(rng, w, k);
+        if g.mode == Mode::Cmd {
+            // mostly records the `PutLocalRecord` handler accepts (chunk / transaction / register / scratchpad headers)
+            let mut tries = 0;
+            while handler_rt(v).is_none() && tries < 20 && !rng.chance(1, 15) {
+                v = pick_value(rng, w, k);
+                tries += 1;
+            }
+            return format!("cput {k} {v}");
+        }
         return format!("put {k} {v} {}", pick_rt(rng, v));
     }
-    if roll < p_put + p_remove {
+    if roll < p_put + p_remove && !(g.mode == Mode::Cmd && w.removes_in_a_row >= 4) {
         return format!("remove {k}");
     }
     if roll < p_put + p_remove + p_run {
@@ -1247,7 +1484,7 @@ impl Runner {
     fn line(&mut self, line: &str) -> String {
         let ws: Vec<&str> = line.split_whitespace().collect();
         let (rec, res) = match ws.as_slice() {
-            ["init", m, c, p, rest @ ..] if rest.len() <= 1 => match (
+            [init @ ("init" | "initcmd"), m, c, p, rest @ ..] if rest.len() <= 1 && !(*init == "initcmd" && !rest.is_empty()) => match (
                 m.parse::<usize>(),
                 c.parse::<usize>(),
                 p.parse::<u64>(),
@@ -1256,7 +1493,7 @@ impl Runner {
                 (Ok(m), Ok(c), Ok(p), Ok(mv)) if c >= 1 => {
                     self.flush_fails();
                     self.w = None;
-                    let mut w = World::new(m, c, p, mv);
+                    let mut w = World::new(m, c, p, mv, *init == "initcmd");
                     w.hist.push(line.to_string());
                     self.w = Some(w);
                     self.n_hist += 1;
@@ -1301,7 +1538,7 @@ impl Runner {
                     }
                 };
                 if res != "panic" && res != "bad-op" {
-                    let mutating = !ws.is_empty() && !matches!(ws[0], "kadput" | "len" | "get" | "contains" | "addrs" | "ls" | "dist" | "far" | "cache" | "pending" | "metrics" | "key");
+                    let mutating = !ws.is_empty() && !matches!(ws[0], "bad-header" | "kadput" | "len" | "get" | "contains" | "addrs" | "ls" | "dist" | "far" | "cache" | "pending" | "metrics" | "key");
                     if mutating {
                         let _ = catch_unwind(AssertUnwindSafe(|| {
                             w.check_views();
@@ -1387,6 +1624,7 @@ fn main() {
     let mode = match args.extra.get("mode").map(|s| s.as_str()) {
         Some("crash") => Mode::Crash,
         Some("cap") => Mode::Cap,
+        Some("cmd") => Mode::Cmd,
         _ => Mode::Sched,
     };
     let mut r = Runner { out: Out::new(&args.out), w: None, n_hist: 0 };
@@ -1399,8 +1637,14 @@ fn main() {
         r.out.finish();
         return;
     }
-    size_limit_corpus(&mut r);
     let mut rng = Rng::new(args.seed ^ (mode as u64).wrapping_mul(0x51ED));
+    if mode == Mode::Cmd {
+        key_length_corpus(&mut r, true);
+        notification_bursts(&mut r, &mut rng);
+    } else {
+        size_limit_corpus(&mut r);
+        key_length_corpus(&mut r, false);
+    }
     let mut key_base = 0u64;
     for h in 0..args.n {
         // ---- one history, executed under up to three schedules ----
@@ -1413,9 +1657,10 @@ fn main() {
             }
             Mode::Crash => (rng.range(2, 5), *rng.pick(&[1u64, 2, 3, 25]), rng.range(2, 6)),
             Mode::Cap => (*rng.pick(&[0u64, 1, 1, 2, 2, 2, 3, 3, 4]), *rng.pick(&[1u64, 2, 3, 25]), rng.range(3, 9)),
+            Mode::Cmd => (rng.range(2, 6), *rng.pick(&[1u64, 2, 3, 25]), rng.range(2, 7)),
         };
         let peer = rng.below(1000);
-        let small_maxval = if mode != Mode::Cap && rng.chance(1, 3) { Some(rng.range(64, 400)) } else { None };
+        let small_maxval = if mode != Mode::Cap && mode != Mode::Cmd && rng.chance(1, 3) { Some(rng.range(64, 400)) } else { None };
         let g = Gen { mode, nkeys, key_base, disciplined: mode == Mode::Cap && rng.chance(1, 3) };
         key_base = (key_base + nkeys) % 3000;
         let nops = rng.range(5, 60);
@@ -1424,6 +1669,7 @@ fn main() {
         let mut finals: Vec<(bool, Vec<String>)> = vec![];
         for sch in 0..schedules {
             match small_maxval {
+                _ if mode == Mode::Cmd => r.line(&format!("initcmd {max} {cache} {peer}")),
                 Some(mv) => r.line(&format!("init {max} {cache} {peer} {mv}")),
                 None => r.line(&format!("init {max} {cache} {peer}")),
             };
@@ -1440,14 +1686,14 @@ fn main() {
                         crashes += 1;
                         continue;
                     }
-                    if mode == Mode::Cap && rng.chance(1, 60) {
+                    if (mode == Mode::Cap || mode == Mode::Cmd) && rng.chance(1, 60) {
                         r.line("crash");
                         r.observe(true);
                         continue;
                     }
                     let l = gen_op(&mut rng, r.world(), &g);
                     let first = l.split_whitespace().next().unwrap_or("").to_string();
-                    if matches!(first.as_str(), "put" | "remove" | "setrange" | "cleanup" | "payment") {
+                    if matches!(first.as_str(), "put" | "cput" | "remove" | "setrange" | "cleanup" | "payment") {
                         script.push(l.clone());
                     }
                     r.line(&l);
@@ -1498,6 +1744,9 @@ fn main() {
         }
         let _ = h;
     }
+    if mode == Mode::Crash {
+        big_cleanup_crash_history(&mut r, &mut rng);
+    }
     if mode == Mode::Cap {
         big_cleanup_history(&mut r, &mut rng);
     }
@@ -1547,6 +1796,97 @@ fn size_limit_corpus(r: &mut Runner) {
     r.line("crash");
     r.observe(true);
     r.out.nontrivial_case("size-limit-corpus-all");
+}
+
+/// Corpus (C01/C02): record keys are arbitrary byte strings — 8-byte, 32-byte and 34-byte (PeerId-like) keys are
+/// put, settled, read, listed, and must all be there again after a restart.
+fn key_length_corpus(r: &mut Runner, cmd: bool) {
+    r.line(if cmd { "initcmd 20 3 9" } else { "init 20 3 9" });
+    // ids 0..9 cover key lengths 8, 34, 31, 33, 64, 2 and 32
+    for k in 0..10u64 {
+        r.line(&format!("key {k} @"));
+    }
+    for k in 0..10u64 {
+        let v = 60 + 3 * k;
+        let id = r.world().next_id;
+        r.line(&if cmd { format!("cput {k} {v}") } else { format!("put {k} {v} c") });
+        r.line(&format!("run {id}"));
+        r.line(&format!("deliver {id}"));
+    }
+    r.observe(true);
+    r.line("crash");
+    r.observe(true);
+    r.out.nontrivial_case(if cmd { "key-length-corpus-cmd" } else { "key-length-corpus" });
+}
+
+/// C01 through the real handlers: bursts of 26..60 puts whose completion notifications queue up behind them, with
+/// the default cache size (25) and with a small one; every write completes, then the notifications are handled in
+/// a random per-key-FIFO order; afterwards every key must be listed and readable.
+fn notification_bursts(r: &mut Runner, rng: &mut Rng) {
+    for (i, cache) in [25u64, 25, 3].iter().enumerate() {
+        let n = rng.range(26, 60);
+        let base = 7000 + 100 * i as u64;
+        r.line(&format!("initcmd 16384 {cache} {}", rng.below(1000)));
+        for k in base..base + n {
+            r.line(&format!("key {k} @"));
+        }
+        for k in base..base + n {
+            let v = if rng.chance(1, 2) { 3 * rng.below(40) } else { 3 * (7 * rng.below(6) + rng.below(3)) + 1 };
+            r.line(&format!("cput {k} {v}"));
+        }
+        r.settle_and_observe(rng, false);
+        for k in base..base + n {
+            r.line(&format!("contains {k}"));
+        }
+        r.out.nontrivial_case(&format!("notification-burst-{i}"));
+    }
+}
+
+/// C02: a clean-up at the real threshold (`MAX_RECORDS_COUNT / 10` records, responsible range set) removes about
+/// half of the records; the delete tasks of the first part complete, the node stops, and is restarted with the same
+/// identity. A removal whose disk task completed stays removed (oracle clause `restart-absent`); a removal whose
+/// task did not complete may come back (no expectation by the oracle, exact agreement with the model).
+fn big_cleanup_crash_history(r: &mut Runner, rng: &mut Rng) {
+    let thr = (rs::MAX_RECORDS_COUNT_VALUE / 10) as u64;
+    r.line(&format!("init {} 3 {}", thr + 100, rng.below(1000)));
+    let base = 20000u64;
+    for k in base..base + thr {
+        r.line(&format!("key {k} @"));
+    }
+    for k in base..base + thr {
+        let v = (k % 4) * 21; // the smallest values (10-17 bytes), chunk header
+        let id = r.world().next_id;
+        r.line(&format!("put {k} {v} c"));
+        r.line(&format!("run {id}"));
+        r.line(&format!("deliver {id}"));
+    }
+    let mid = base + rng.below(thr);
+    r.line(&format!("setrange @{mid}"));
+    r.line("cleanup");
+    r.line("pending");
+    // the first part of the file deletions completes (clean-up spawns them in distance order, one lane)
+    let total: usize = r.world().pending_tasks().iter().filter(|(_, t)| matches!(t, TKind::Delete { .. })).count();
+    let done = if total == 0 { 0 } else { total / 2 + rng.below(total as u64 / 4 + 1) as usize };
+    for _ in 0..done {
+        let next = r.world().runnable().into_iter().find(|id| {
+            r.world().pending_tasks().iter().any(|(i, t)| i == id && matches!(t, TKind::Delete { .. }))
+        });
+        match next {
+            Some(id) => {
+                r.line(&format!("run {id}"));
+            }
+            None => break,
+        }
+    }
+    r.line("pending");
+    r.line("crash");
+    for k in (base..base + thr).step_by(5) {
+        r.line(&format!("get {k}"));
+    }
+    r.line("addrs");
+    r.line("ls");
+    r.line(&format!("metrics {base}"));
+    r.out.nontrivial_case("big-cleanup-crash");
 }
 
 /// C10: the clean-up threshold at the real `MAX_RECORDS_COUNT / 10`
